@@ -551,7 +551,7 @@ func c05SizedObjects(c *Ctx) []c05Obj {
 			if der == nil {
 				continue // the kind has no encoding that short; the ordinary objects cover small sizes
 			}
-			out = append(out, c05Obj{kind, fmt.Sprintf("size%d-%s", target, name), der, false})
+			out = append(out, c05Obj{kind: kind, tag: fmt.Sprintf("size%d-%s", target, name), der: der})
 		}
 	}
 	return out
